@@ -7,7 +7,7 @@ from typing import Dict, List, Optional, Set, Tuple
 from .core import AnalysisError, Report
 from .emit import Folder
 from .prog import (Program, bind_call, dotted, enclosing, func_params, guards_of, inline_locals, local_assignments, parent,
-                   single_def, stmt_of, unparse, walk_no_nested)
+                   single_def, stmt_of, unparse, value_def, walk_no_nested)
 from .rules_pybind import find_tpl
 
 XP = "gtwrap/xml_parser/xml_parser.py"
@@ -413,9 +413,14 @@ def _none_excluded(node: ast.AST, subject: str, fn, depth: int = 2) -> bool:
         for t, pol in facts:
             if pol and t.endswith("isnotNone"):
                 x = t[: -len("isnotNone")]
-                for st in local_assignments(fn).get(x, []):
-                    if isinstance(st, ast.Assign) and isinstance(st.value, ast.IfExp) and isinstance(st.value.orelse, ast.Constant) \
-                            and st.value.orelse.value is None and unparse(st.value.test).replace(" ", "") == f"{subj}isnotNone":
+                vals = [st.value for st in local_assignments(fn).get(x, []) if isinstance(st, ast.Assign)]
+                vd = value_def(fn, x) if x.isidentifier() else None          # the same conditional written as an if/else statement
+                for v in vals + ([vd] if vd is not None else []):
+                    if isinstance(v, ast.IfExp) and isinstance(v.orelse, ast.Constant) \
+                            and v.orelse.value is None and unparse(v.test).replace(" ", "").strip("()") == f"{subj}isnotNone":
+                        return True
+                    if isinstance(v, ast.IfExp) and isinstance(v.body, ast.Constant) and v.body.value is None \
+                            and unparse(v.test).replace(" ", "").strip("()") == f"{subj}isNone":
                         return True
     return False
 
